@@ -150,7 +150,8 @@ func (b *Bucket) Load(batchSize int) ([]Entry, error) {
 	if b.NumEntries > maxEntriesPerBucket {
 		return nil, fmt.Errorf("refusing to load bucket with %d entries", b.NumEntries)
 	}
-	entries := make([]Entry, 0, b.NumEntries)
+	// the entry count comes from the file: do not trust it for more than a modest pre-allocation
+	entries := make([]Entry, 0, min(b.NumEntries, 1<<16))
 
 	stride := int(b.Stride)
 	buf := make([]byte, batchSize*stride)
